@@ -1,0 +1,30 @@
+//go:build verif
+
+package httpd
+
+// Contracts for /verif (gvc). Comment-only file; see /verif/DESIGN.md §5 C19.
+
+//@ prop C19
+
+// Only the two supported credential kinds are ever returned without an error.
+//@ func ParseCredentials
+//@   ensures result1 == nil ==> result0 != nil && (result0.Method == UserAuthentication || result0.Method == BearerAuthentication)
+//@   ensures result1 != nil ==> result0 == nil
+
+// The authentication wrapper fails closed: when authentication is required and an administrator exists,
+// the wrapped handler is only invoked with a user that was resolved without error; bearer tokens are
+// only verified against a configured (non-empty) shared secret.
+//@ func authenticate$1
+//@   ghost admin bool = false
+//@   ghost authed bool = false
+//@   call .AdminUserExists
+//@     set admin = ret0
+//@   call .Authenticate
+//@     assume ret1 == nil ==> ret0 != nil
+//@     set authed = (ret1 == nil)
+//@   call .User
+//@     set authed = (ret1 == nil && ret0 != nil)
+//@   call Parse
+//@     requires h.Config.SharedSecret != ""
+//@   call inner
+//@     requires (requireAuthentication && admin) ==> (authed && arg2 != nil)
